@@ -42,3 +42,36 @@ def viol(kind, sig, detail, text, over, seed_name, d, opts=None):
     if opts is not None:
         v['opts'] = opts
     return v
+
+
+def script_texts(tier):
+    """multi-statement scripts: ordered pairs of seed statements (quick: the 14 shortest; thorough: all) x every
+    separator filler x two final fillers, plus triples of the 6 shortest with the default separator"""
+    import itertools
+    texts = []
+    for si in range(len(grammar.SEEDS)):
+        b, _ = explore.run(lambda c, si=si: grammar.build_stmt(c, si), {}, set())
+        texts.append(b.text())
+    pool = texts if tier == 'thorough' else sorted(texts, key=len)[:9]
+    out = []
+    for a, b in itertools.product(pool, repeat=2):
+        for sep in grammar.SEPS:
+            for fin in (';', ''):
+                out.append(a + sep + b + fin)
+    for tri in itertools.product(sorted(texts, key=len)[:6 if tier == 'thorough' else 4], repeat=3):
+        out.append('; '.join(tri) + ';')
+        out.append(';\n-- c\n'.join(tri))
+    return out
+
+
+def run_texts(texts, evaluate, seed, setup=None, bits=22):
+    """evaluate(text, acc, state) over a plain list of texts (fork pool, deterministic merge)"""
+    texts = core.rotate(texts, seed)
+
+    def work(chunk):
+        state = setup() if setup else None
+        acc = core.Acc(bits=bits)
+        for t in chunk:
+            evaluate(t, acc, state)
+        return acc.dump()
+    return core.merge(core.pmap(work, core.chunked(texts, core.NPROC * 8)))
